@@ -391,7 +391,14 @@ def kill_word(event: E) -> None:
     pos = buff.document.find_next_word_ending(count=event.arg)
 
     if pos:
-        deleted = buff.delete(count=pos)
+        if pos < 0:
+            # A negative argument: `pos` points before the cursor (to where
+            # `forward-word` would move). Kill backward. (`Buffer.delete`
+            # would take a negative count as a slice bound and delete almost
+            # everything *after* the cursor.)
+            deleted = buff.delete_before_cursor(count=-pos)
+        else:
+            deleted = buff.delete(count=pos)
 
         # Append to the previous kill, but only when the previous `kill-word`
         # did kill something. (Otherwise, the text on top of the kill ring is
